@@ -67,7 +67,7 @@ def monitor(case, evs):
 def build_cases(c):
     rng = c.rng
     cases = []
-    n = 260 if c.tier == "quick" else 4000
+    n = 260 if c.tier == "quick" else 1500
     for i in range(n):
         case = L.random_case_header(rng)
         L.gen_history(rng, case, rng.randint(2, 9), weights={"replay": 2.5, "dup": 2, "late": 2, "edge": 2, "oldorigin": 2,
